@@ -73,6 +73,10 @@ func (w *World) Sources(v ssa.Value, at *ssa.BasicBlock) []Src {
 					out = append(out, Src{"global", a, at})
 					return
 				case *ssa.Alloc:
+					if st := lastStoreBefore(x, a); st != nil {
+						walk(st.Val, st.Block())
+						return
+					}
 					found := false
 					w.eachStore(a, func(st *ssa.Store) {
 						found = true
@@ -173,4 +177,53 @@ func derefNamed(t types.Type) *types.Named {
 	}
 	n, _ := t.(*types.Named)
 	return n
+}
+
+// lastStoreBefore: the most recent store to local variable a that precedes the load in the same
+// block (the defer-spilled result pattern `*r = v; rundefers; t = *r; return t`), or nil.
+func lastStoreBefore(load *ssa.UnOp, a *ssa.Alloc) *ssa.Store {
+	b := load.Block()
+	if b == nil {
+		return nil
+	}
+	var last *ssa.Store
+	for _, in := range b.Instrs {
+		if in == ssa.Instruction(load) {
+			return last
+		}
+		if st, ok := in.(*ssa.Store); ok && st.Addr == ssa.Value(a) {
+			last = st
+		}
+		// a call could write the variable through a captured reference
+		if _, isCall := in.(ssa.CallInstruction); isCall && last != nil {
+			if _, isRD := in.(*ssa.RunDefers); !isRD {
+				// keep: a call between store and load does not invalidate a non-escaping local;
+				// escaping locals (captured by closures) are handled conservatively below
+				if escapes(a) {
+					last = nil
+				}
+			}
+		}
+	}
+	return nil
+}
+
+// escapes: the local variable is captured by a closure or its address is passed on.
+func escapes(a *ssa.Alloc) bool {
+	refs := a.Referrers()
+	if refs == nil {
+		return false
+	}
+	for _, rf := range *refs {
+		switch x := rf.(type) {
+		case *ssa.Store:
+			if x.Val == ssa.Value(a) {
+				return true
+			}
+		case *ssa.UnOp, *ssa.DebugRef, *ssa.FieldAddr, *ssa.IndexAddr:
+		default:
+			return true
+		}
+	}
+	return false
 }
